@@ -52,6 +52,17 @@ def decide(ctx, q, v, want, envs, what, m, fn):
         ctx.finding(q, what, f"{what}: the mask value of a voxel differs from the analytic inequality", fn, m, witness=res.witness)
 
 
+def soft_input_ok(ctx, q, pre, m, fn, what):
+    """the solid handed to the Gaussian is taken at face value (0 / 1): skimage.filters.gaussian converts *integer* images to floats by
+    dividing by the range of the integer type (img_as_float), so a 0/1 solid stored as int8 comes back with a core of 1/127"""
+    at = getattr(pre, "astype", None)
+    name = at.name.split(".")[-1] if isinstance(at, Ref) else (str(pyval(at)) if at is not None and is_pyconst(at) else None)
+    ctx.count(1, {"shape": what, "element type of the solid given to the Gaussian": name or "as computed (bool / float)"})
+    if name is not None and (name.startswith(("int", "uint")) or name in ("short", "intc", "byte", "ubyte")):
+        ctx.finding(q, what, f"{what}: the solid is converted to {name} before the soft edge is added; skimage's Gaussian rescales integer images by "
+                    "the range of their type (a 0/1 solid of type int8 is read as 0 / 0.0079), so the core of the soft mask is no longer 1", fn, m)
+
+
 def o131(ctx):
     rng = np.random.default_rng(tm.SEED + 13)
     # ---- sphere
@@ -146,6 +157,7 @@ def o131(ctx):
     pre = getattr(v, "blur_of", None)
     if pre is None:
         raise Unsupported("blurred cylinder: solid before the Gaussian not found", fn)
+    soft_input_ok(ctx, q, pre, m, fn, "cylinder with a soft edge")
     grow = lambda t: T("ceil", mk("add", t, mk("mul", sym("sigma"), const(5.0))))
     want = mk("ite", mk("and", mk("le", d2, grow(sym("r"))), mk("le", T("abs", mk("sub", ax[2].sym, sym("c2"))), grow(half))), const(1.0), const(0.0))
     want = tm.subst(want, {a.sym: b.sym for a, b in zip(ax, pre.axes)})
@@ -168,6 +180,7 @@ def o131(ctx):
     pre = getattr(v, "blur_of", None)
     if pre is None:
         raise Unsupported("blurred sphere: solid before the Gaussian not found", fn)
+    soft_input_ok(ctx, q, pre, m, fn, "sphere with a soft edge")
     d = dist(pre.axes, CEN.cols)
     want = mk("ite", mk("le", d, grow(sym("r"))), const(1.0), const(0.0))
     envs3 = lattice_envs(pre.axes, rng, 45, extra={"r": lambda g, e: float(g.integers(1, 30)), "sigma": lambda g, e: float(g.choice([0.5, 1.0, 2.0, 3.0]))})
@@ -448,6 +461,13 @@ def o135(ctx):
             env[ax[k].sym.args[0]] = env[f"c{k}"] + off
             env[f"r{k}"] = off / float(np.sqrt(1.0 + sign * eps))
             envs.append(env)
+    # with a soft edge: what goes into the Gaussian
+    it_s, v_s = run_mask(ctx, "ellipsoid_mask", {"mask_size": SIZE, "radii": radii, "center": CEN, "gaussian": P("sigma"), "gaussian_outwards": K(False)},
+                         assume={"gaussian != 0.0 and gaussian_outwards": False})
+    pre_s = getattr(v_s, "blur_of", None)
+    if pre_s is None:
+        raise Unsupported("ellipsoid with a soft edge: solid before the Gaussian not found", fn)
+    soft_input_ok(ctx, q, pre_s, m, fn, "ellipsoid with a soft edge")
     res = tm.equivalent(got, want, n=len(envs), extra_envs=envs, tol=1e-9, seed_tag=q, need=len(envs) // 2)
     ctx.count(len(envs), {"shape": "ellipsoid", "lattice points": len(envs), "equal": bool(res), "extracted": tm.show(v.term)[:200]})
     if not res:
